@@ -458,3 +458,391 @@ Example C14_name_classes_nonvacuous :
   run_cmd NoNorm CValidate false ex_dir SrcNone SrcNone false ([], []) [] [mkObj KTable ex_n_us ex_n_us 2 true]
     = (ORefused, [mkObj KTable ex_n_us ex_n_us 2 true], []).
 Proof. vm_compute. repeat split. Qed.
+
+(** ------------------------------------------------------------------------
+    Round 5 (a): scripts that carry their own BEGIN / COMMIT / ROLLBACK
+    (Dev/DevTxModel.v).  Executor.Replay sends the statements of a migration
+    file one by one, outside any transaction of its own; a transaction the
+    script opened and did not close (its COMMIT comes after a failing
+    statement, or is missing) is still open when the deferred RestoreFunc
+    runs: its VACUUM is refused ("cannot VACUUM from within a transaction"),
+    and when the connection is closed the restore's DELETE is rolled back
+    with the rest.  What was committed before the BEGIN stays in the dev
+    database.
+
+    Full statement (false of the faithful model):
+      forall ss, snd (tx_session ss []) = []
+    -> C14_tx_handed_back_empty_refuted (finding C14-open-transaction), and
+    the exact characterisation C14_tx_handed_back_empty_except. *)
+From Atlas Require Dev.DevTxModel Dev.DevTxProofs.
+
+Theorem C14_tx_handed_back_empty_refuted :
+  exists ss : list DevTxModel.tstmt,
+    DevTxModel.tx_session ss [] =
+      (DevTxModel.TFail 2, [1%N]).
+Proof. exists [DevTxModel.TCreate 1; DevTxModel.TBegin; DevTxModel.TBad; DevTxModel.TCommit]. vm_compute. reflexivity. Qed.
+Print Assumptions C14_tx_handed_back_empty_refuted.
+
+(** exactly when it is handed back empty: no transaction is open when the
+    replay stops, or nothing had been committed before it was opened; in
+    particular every script without a BEGIN (and then the restore completes) *)
+Theorem C14_tx_handed_back_empty_except :
+  forall ss : list DevTxModel.tstmt,
+    (snd (DevTxModel.tx_session ss []) = [] <->
+       (DevTxModel.c_intx (snd (DevTxModel.run_script ss DevTxProofs.conn0)) = false \/
+        DevTxModel.c_file (snd (DevTxModel.run_script ss DevTxProofs.conn0)) = [])) /\
+    (DevTxModel.has_begin ss = false ->
+       snd (DevTxModel.tx_session ss []) = [] /\ fst (DevTxModel.tx_session ss []) <> DevTxModel.TRestoreFail).
+Proof. intros ss. split. - exact (DevTxProofs.tx_empty_iff ss). - exact (DevTxProofs.tx_no_begin_empty ss). Qed.
+Print Assumptions C14_tx_handed_back_empty_except.
+
+(** a non-empty database is refused whatever the script holds, and not touched *)
+Theorem C14_tx_refuse_untouched :
+  forall (ss : list DevTxModel.tstmt) (file : list N),
+    file <> [] -> DevTxModel.tx_session ss file = (DevTxModel.TRefused, file).
+Proof. exact DevTxProofs.tx_refused. Qed.
+Print Assumptions C14_tx_refuse_untouched.
+
+(** the failed restore is reported when nothing else failed (decision of
+    C14_restore_always_runs carried over): all statements succeed, a
+    transaction is left open => the session ends in TRestoreFail *)
+Theorem C14_tx_restore_failure_reported :
+  forall ss : list DevTxModel.tstmt,
+    fst (DevTxModel.run_script ss DevTxProofs.conn0) = None ->
+    DevTxModel.c_intx (snd (DevTxModel.run_script ss DevTxProofs.conn0)) = true ->
+    fst (DevTxModel.tx_session ss []) = DevTxModel.TRestoreFail.
+Proof. exact DevTxProofs.tx_restore_reported. Qed.
+Print Assumptions C14_tx_restore_failure_reported.
+
+Example C14_tx_nonvacuous :
+  (* closed transaction + failure: empty; open one with nothing committed before: empty, restore error;
+     committed table + open transaction: the table stays; no BEGIN: empty *)
+  DevTxModel.tx_session [DevTxModel.TBegin; DevTxModel.TCreate 1; DevTxModel.TCommit; DevTxModel.TBad] [] = (DevTxModel.TFail 3, []) /\
+  DevTxModel.tx_session [DevTxModel.TBegin; DevTxModel.TCreate 1] [] = (DevTxModel.TRestoreFail, []) /\
+  DevTxModel.tx_session [DevTxModel.TCreate 1; DevTxModel.TBegin; DevTxModel.TCreate 2] [] = (DevTxModel.TRestoreFail, [1%N]) /\
+  DevTxModel.tx_session [DevTxModel.TCreate 1; DevTxModel.TCreate 2] [] = (DevTxModel.TOk, []) /\
+  DevTxModel.tx_session [DevTxModel.TBegin] [7%N] = (DevTxModel.TRefused, [7%N]) /\
+  DevTxModel.has_begin [DevTxModel.TCreate 1; DevTxModel.TBad] = false.
+Proof. vm_compute. repeat split. Qed.
+
+(** Round 5 (b): the verdict is recomputed by every Snapshot.  Whatever a first
+    session [s1] did on whatever database (same driver object, same
+    connection), if another writer then adds objects [xs] among which one is
+    not engine bookkeeping, the next sessions decline: no event, the database
+    [d1 ++ xs] and the fault streams as they were.  (Stage scen runs this on
+    one *sqlite.Driver with a second connection as the other writer.) *)
+Theorem C14_verdict_recomputed :
+  forall (s1 : sess) (ss : list sess) (fs : faults) (rs : list bool) (d xs : db),
+  (exists o, In o xs /\ bookkeeping o = false) ->
+  let '(_, d1, fs1, rs1, _) := run_session s1 fs rs d in
+  run_sessions ss fs1 rs1 (d1 ++ xs) =
+    (match ss with [] => OOk | _ => decline_of (d1 ++ xs) end, d1 ++ xs, fs1, rs1, []).
+Proof.
+  intros s1 ss fs rs d xs [o [Hin Hb]].
+  destruct (run_session s1 fs rs d) as [[[[o1 d1] fs1] rs1] es1].
+  apply C14_refuse_untouched. exists o. split; [apply in_or_app; right; exact Hin | exact Hb].
+Qed.
+Print Assumptions C14_verdict_recomputed.
+
+Example C14_verdict_recomputed_nonvacuous :
+  (* first session accepted and handed back empty; a foreign view appears; the second is refused *)
+  run_session (replay_sess false ex_dir) no_faults [] [] = (OOk, [], no_faults, [], snd (run_session (replay_sess false ex_dir) no_faults [] [])) /\
+  run_sessions [replay_sess false ex_dir] no_faults [] ([] ++ [mkObj KView ex_n_us ex_n_us 0 true]) =
+    (ORefused, [mkObj KView ex_n_us ex_n_us 0 true], no_faults, [], []).
+Proof. vm_compute. repeat split. Qed.
+
+(** ------------------------------------------------------------------------
+    Round 5 (goal 1): MySQL Driver.Snapshot / SchemaRestoreFunc /
+    RealmRestoreFunc and sqlx.DevDriver.NormalizeSchema / NormalizeRealm on a
+    server (Dev/DevServer.v): a list of schemas with tables, the schema the
+    connection is bound to, one fault bit per QueryContext/ExecContext call.
+    "Contains anything" ([holds_content]): a connection bound to an existing
+    schema owns that schema (any table in it); any other connection owns the
+    server (any schema at all). *)
+From Atlas Require Dev.DevServer Dev.DevServerProofs.
+
+(** refused (or Snapshot's own inspection fails), and then nothing is issued:
+    for every catalogue, scenario (script session, NormalizeSchema,
+    NormalizeRealm) and fault stream *)
+Theorem C14_refuse_untouched_mysql :
+  forall (sc : DevServer.scenario) (srv : DevServer.server) (fs : list bool),
+  DevServer.holds_content srv = true ->
+  let r := DevServer.run_scenario sc srv fs in
+  DevServer.r_trace r = [] /\ DevServer.r_srv r = srv /\ DevServer.r_ran r = false /\
+  (DevServer.r_out r = DevServer.SRefused \/ DevServer.r_out r = DevServer.SSnapErr).
+Proof.
+  intros sc srv fs H. apply DevServerProofs.declined_scenario. apply DevServerProofs.snapshot_declines. exact H.
+Qed.
+Print Assumptions C14_refuse_untouched_mysql.
+
+(** once Snapshot accepted, the RestoreFunc runs on every exit of every
+    scenario, whichever call fails *)
+Theorem C14_restore_always_runs_mysql :
+  forall (sc : DevServer.scenario) (srv : DevServer.server) (fs fs1 : list bool) (rk : DevServer.restore_kind),
+  DevServer.snapshot_my srv fs = (DevServer.SnapOk rk, fs1) ->
+  DevServer.r_ran (DevServer.run_scenario sc srv fs) = true.
+Proof. intros sc srv fs fs1 rk. exact (DevServerProofs.accepted_restore_runs sc srv fs rk fs1). Qed.
+Print Assumptions C14_restore_always_runs_mysql.
+
+(** a connection that is not bound to a schema (realm connection): accepted
+    means the server has no schema, and whatever the script / the desired
+    state creates -- schemas, tables in any schema -- and whichever statement
+    the server rejects, with no call failing for other reasons the server is
+    handed back without any schema and the RestoreFunc returned nil *)
+Theorem C14_handed_back_empty_mysql :
+  forall (sc : DevServer.scenario) (cur : option N),
+  let r := DevServer.run_scenario sc (DevServer.mkSrv [] cur) [] in
+  DevServer.r_ran r = true /\ DevServer.r_restored r = true /\ DevServer.sv_schemas (DevServer.r_srv r) = [] /\ DevServer.r_fs r = [].
+Proof. exact DevServerProofs.handed_back_realm. Qed.
+Print Assumptions C14_handed_back_empty_mysql.
+
+Theorem C14_accepted_realm_is_empty_mysql :
+  forall (srv : DevServer.server) (fs fs1 : list bool),
+  DevServer.snapshot_my srv fs = (DevServer.SnapOk DevServer.RRealm, fs1) -> DevServer.holds_content srv = false.
+Proof. exact DevServerProofs.accepted_realm_empty. Qed.
+Print Assumptions C14_accepted_realm_is_empty_mysql.
+
+(** Full statement for a connection bound to a schema -- "handed back as found
+    whatever the session does" -- is false of the faithful model: the
+    SchemaRestoreFunc only looks at the bound schema.  (1) a script (or
+    NormalizeRealm) that creates another schema leaves it behind, no error;
+    (2) a script that drops the bound schema: the restore fails (schema not
+    found) and nothing is recreated.  Findings C14-bound-foreign-schema,
+    C14-bound-schema-dropped. *)
+Definition ex_bound : DevServer.server := DevServer.mkSrv [DevServer.mkSch 1 []] (Some 1%N).
+Theorem C14_handed_back_empty_bound_mysql_refuted :
+  (exists body, let r := DevServer.run_sess body ex_bound [] in
+     DevServer.r_out r = DevServer.SOk /\ DevServer.r_restored r = true /\
+     DevServer.sv_schemas (DevServer.r_srv r) = [DevServer.mkSch 1 []; DevServer.mkSch 2 [1%N]]) /\
+  (exists rl, let r := DevServer.norm_realm rl ex_bound [] in
+     DevServer.r_out r = DevServer.SOk /\ DevServer.r_restored r = true /\
+     DevServer.sv_schemas (DevServer.r_srv r) = [DevServer.mkSch 1 []; DevServer.mkSch 2 [2%N]]) /\
+  (exists body, let r := DevServer.run_sess body ex_bound [] in
+     DevServer.r_out r = DevServer.SOk /\ DevServer.r_ran r = true /\ DevServer.r_restored r = false /\
+     DevServer.sv_schemas (DevServer.r_srv r) = []).
+Proof.
+  split; [|split].
+  - exists [DevServer.SCs 2 false; DevServer.SCt (Some 2%N) 1]. vm_compute. repeat split.
+  - exists [DevServer.mkSch 1 [1%N]; DevServer.mkSch 2 [2%N]]. vm_compute. repeat split.
+  - exists [DevServer.SDs 1]. vm_compute. repeat split.
+Qed.
+Print Assumptions C14_handed_back_empty_bound_mysql_refuted.
+
+Example C14_server_nonvacuous :
+  (* refused: realm connection, one empty schema; bound connection, a table in its schema.
+     accepted: bound connection with an empty schema next to a foreign schema with tables;
+     a script on a realm connection that creates a schema and a table, then fails: all dropped;
+     a fault in the restore's DROP: reported, schema left *)
+  DevServer.holds_content (DevServer.mkSrv [DevServer.mkSch 1 []] None) = true /\
+  DevServer.r_out (DevServer.run_sess [] (DevServer.mkSrv [DevServer.mkSch 1 []] None) []) = DevServer.SRefused /\
+  DevServer.r_out (DevServer.run_sess [] (DevServer.mkSrv [DevServer.mkSch 1 [3%N]] (Some 1%N)) []) = DevServer.SRefused /\
+  DevServer.holds_content (DevServer.mkSrv [DevServer.mkSch 1 []; DevServer.mkSch 2 [1%N]] (Some 1%N)) = false /\
+  DevServer.r_out (DevServer.run_sess [DevServer.SCt None 1] (DevServer.mkSrv [DevServer.mkSch 1 []; DevServer.mkSch 2 [1%N]] (Some 1%N)) []) = DevServer.SOk /\
+  DevServer.r_trace (DevServer.run_sess [DevServer.SCs 2 false; DevServer.SCt (Some 2%N) 1; DevServer.SBadS] (DevServer.mkSrv [] None) [])
+    = [DevServer.ECs 2; DevServer.ECt 2 1; DevServer.EDs 2] /\
+  DevServer.r_out (DevServer.run_sess [DevServer.SCs 2 false; DevServer.SCt (Some 2%N) 1; DevServer.SBadS] (DevServer.mkSrv [] None) []) = DevServer.SFail 2 /\
+  (let r := DevServer.run_sess [DevServer.SCs 2 false] (DevServer.mkSrv [] None) (DevServer.fault_stream [6] 10) in
+   DevServer.r_restored r = false /\ DevServer.r_ran r = true /\ DevServer.sv_schemas (DevServer.r_srv r) = [DevServer.mkSch 2 []]) /\
+  DevServer.snapshot_my (DevServer.mkSrv [] None) [] = (DevServer.SnapOk DevServer.RRealm, []).
+Proof. vm_compute. repeat split. Qed.
+
+(** ------------------------------------------------------------------------
+    Round 5 (goal 1), PostgreSQL (Dev/DevServerPg.v).  [bound] = Driver.schema
+    (the search_path of the dev URL).  "Contains anything"
+    ([holds_content_pg]): a bound connection owns its schema (a table in it);
+    an unbound one owns the database -- any schema other than an empty
+    "public" (schema id 0). *)
+From Atlas Require Dev.DevServerPg Dev.DevServerPgProofs.
+
+Theorem C14_refuse_untouched_pg :
+  forall (bound : option N) (sc : DevServer.scenario) (srv : DevServer.server) (fs : list bool),
+  DevServerPg.holds_content_pg bound srv = true ->
+  let r := DevServerPg.run_scenario_pg bound sc srv fs in
+  DevServer.r_trace r = [] /\ DevServer.r_srv r = srv /\ DevServer.r_ran r = false /\
+  (DevServer.r_out r = DevServer.SRefused \/ DevServer.r_out r = DevServer.SSnapErr).
+Proof.
+  intros bound sc srv fs H. apply DevServerPgProofs.declined_scenario_pg. apply DevServerPgProofs.snapshot_pg_declines. exact H.
+Qed.
+Print Assumptions C14_refuse_untouched_pg.
+
+Theorem C14_restore_always_runs_pg :
+  forall (bound : option N) (sc : DevServer.scenario) (srv : DevServer.server) (fs fs1 : list bool) (rk : DevServerPg.restore_pg_kind),
+  DevServerPg.snapshot_pg bound srv fs = (DevServerPg.PSnapOk rk, fs1) ->
+  DevServer.r_ran (DevServerPg.run_scenario_pg bound sc srv fs) = true.
+Proof. intros bound sc srv fs fs1 rk. exact (DevServerPgProofs.accepted_restore_runs_pg bound sc srv fs rk fs1). Qed.
+Print Assumptions C14_restore_always_runs_pg.
+
+(** an unbound connection is accepted exactly on a database without schemas or
+    with an empty "public" only, and then -- every scenario, every script /
+    desired realm incl. DROP SCHEMA public, no call failing -- handed back as
+    it was found: without schemas, resp. with the empty "public" recreated *)
+Theorem C14_handed_back_empty_pg :
+  forall (with_public : bool) (sc : DevServer.scenario) (cur : option N),
+  let start := DevServerPgProofs.start_of with_public in
+  let r := DevServerPg.run_scenario_pg None sc (DevServer.mkSrv start cur) [] in
+  DevServer.r_ran r = true /\ DevServer.r_restored r = true /\ DevServer.sv_schemas (DevServer.r_srv r) = start /\ DevServer.r_fs r = [].
+Proof. exact DevServerPgProofs.handed_back_realm_pg. Qed.
+Print Assumptions C14_handed_back_empty_pg.
+
+Theorem C14_accepted_realm_pg :
+  forall (srv : DevServer.server) (fs fs1 : list bool) (with_public : bool),
+  DevServerPg.snapshot_pg None srv fs = (DevServerPg.PSnapOk (DevServerPg.PRealm with_public), fs1) ->
+  DevServer.sv_schemas srv = DevServerPgProofs.start_of with_public.
+Proof. intros srv fs fs1 wp. exact (DevServerPgProofs.accepted_realm_pg srv fs wp fs1). Qed.
+Print Assumptions C14_accepted_realm_pg.
+
+(** bound connections: same two counterexamples as for MySQL *)
+Definition ex_bound_pg : DevServer.server := DevServer.mkSrv [DevServer.mkSch 0 []] (Some 0%N).
+Theorem C14_handed_back_empty_bound_pg_refuted :
+  (exists body, let r := DevServerPg.run_sess_pg (Some 0%N) body ex_bound_pg [] in
+     DevServer.r_out r = DevServer.SOk /\ DevServer.r_restored r = true /\
+     DevServer.sv_schemas (DevServer.r_srv r) = [DevServer.mkSch 0 []; DevServer.mkSch 2 [1%N]]) /\
+  (exists body, let r := DevServerPg.run_sess_pg (Some 0%N) body ex_bound_pg [] in
+     DevServer.r_out r = DevServer.SOk /\ DevServer.r_ran r = true /\ DevServer.r_restored r = false /\
+     DevServer.sv_schemas (DevServer.r_srv r) = []).
+Proof.
+  split.
+  - exists [DevServer.SCs 2 false; DevServer.SCt (Some 2%N) 1]. vm_compute. repeat split.
+  - exists [DevServer.SDs 0]. vm_compute. repeat split.
+Qed.
+Print Assumptions C14_handed_back_empty_bound_pg_refuted.
+
+Example C14_server_pg_nonvacuous :
+  (* refused: unbound, public with a table / a second schema; accepted: unbound with the empty public;
+     a script that drops public and creates s2 with a table: restore drops s2 and recreates public;
+     a connection bound to a schema that does not exist: Snapshot fails, nothing issued *)
+  DevServerPg.holds_content_pg None (DevServer.mkSrv [DevServer.mkSch 0 [1%N]] (Some 0%N)) = true /\
+  DevServerPg.holds_content_pg None (DevServer.mkSrv [DevServer.mkSch 0 []; DevServer.mkSch 1 []] (Some 0%N)) = true /\
+  DevServerPg.holds_content_pg None (DevServer.mkSrv [DevServer.mkSch 0 []] (Some 0%N)) = false /\
+  DevServer.r_trace (DevServerPg.run_sess_pg None [DevServer.SDs 0; DevServer.SCs 2 false; DevServer.SCt (Some 2%N) 1] (DevServer.mkSrv [DevServer.mkSch 0 []] (Some 0%N)) [])
+    = [DevServer.EDs 0; DevServer.ECs 2; DevServer.ECt 2 1; DevServer.EDs 2; DevServer.ECs 0] /\
+  DevServer.r_out (DevServerPg.run_sess_pg (Some 3%N) [] (DevServer.mkSrv [DevServer.mkSch 0 []] (Some 3%N)) []) = DevServer.SSnapErr /\
+  (* the deferred search_path reset of InspectRealm fails (call 5 of Snapshot): Snapshot fails *)
+  DevServer.r_out (DevServerPg.run_sess_pg None [] (DevServer.mkSrv [DevServer.mkSch 0 []] (Some 0%N)) (DevServer.fault_stream [5] 10)) = DevServer.SSnapErr.
+Proof. vm_compute. repeat split. Qed.
+
+(** Exactly what does hold for a connection bound to a schema: unique schema
+    names, the bound schema exists and is empty, and every statement of the
+    script stays inside it ([local_stmt]: CREATE/DROP TABLE unqualified or
+    qualified with the bound schema; rejected statements allowed) => whatever
+    the script creates, drops or fails on, with no call failing for other
+    reasons the RestoreFunc runs, returns nil, and the server -- every schema,
+    the foreign ones included -- is exactly as it was found. *)
+From Atlas Require Dev.DevServerBound Dev.DevServerPgBound.
+
+Theorem C14_handed_back_empty_bound_mysql_except :
+  forall (c : N) (l : list DevServer.sch) (s0 : DevServer.sch) (body : list DevServer.sstmt),
+  NoDup (map DevServer.s_id l) -> DevServer.find_sch c l = Some s0 -> DevServer.s_tabs s0 = [] ->
+  forallb (DevServer.local_stmt c) body = true ->
+  let r := DevServer.run_sess body (DevServer.mkSrv l (Some c)) [] in
+  DevServer.r_ran r = true /\ DevServer.r_restored r = true /\ DevServer.r_srv r = DevServer.mkSrv l (Some c) /\
+  (DevServer.r_out r = DevServer.SOk \/ exists k, DevServer.r_out r = DevServer.SFail k).
+Proof. intros c l s0 body Hd Hf He Hl. exact (DevServerBound.handed_back_bound c l s0 Hd Hf He body Hl). Qed.
+Print Assumptions C14_handed_back_empty_bound_mysql_except.
+
+Theorem C14_handed_back_empty_bound_pg_except :
+  forall (c : N) (l : list DevServer.sch) (s0 : DevServer.sch) (body : list DevServer.sstmt),
+  NoDup (map DevServer.s_id l) -> DevServer.find_sch c l = Some s0 -> DevServer.s_tabs s0 = [] ->
+  forallb (DevServer.local_stmt c) body = true ->
+  let r := DevServerPg.run_sess_pg (Some c) body (DevServer.mkSrv l (Some c)) [] in
+  DevServer.r_ran r = true /\ DevServer.r_restored r = true /\ DevServer.r_srv r = DevServer.mkSrv l (Some c) /\
+  (DevServer.r_out r = DevServer.SOk \/ exists k, DevServer.r_out r = DevServer.SFail k).
+Proof. intros c l s0 body Hd Hf He Hl. exact (DevServerPgBound.handed_back_bound_pg c l s0 Hd Hf He body Hl). Qed.
+Print Assumptions C14_handed_back_empty_bound_pg_except.
+
+Example C14_bound_except_nonvacuous :
+  (* bound to s1 next to a foreign s2 with a table: create two tables, fail, restore drops both; s2 untouched *)
+  let srv := DevServer.mkSrv [DevServer.mkSch 1 []; DevServer.mkSch 2 [7%N]] (Some 1%N) in
+  forallb (DevServer.local_stmt 1) [DevServer.SCt None 1; DevServer.SCt (Some 1%N) 2; DevServer.SBadS] = true /\
+  DevServer.r_trace (DevServer.run_sess [DevServer.SCt None 1; DevServer.SCt (Some 1%N) 2; DevServer.SBadS] srv [])
+    = [DevServer.ECt 1 1; DevServer.ECt 1 2; DevServer.EDt 1 1; DevServer.EDt 1 2] /\
+  DevServer.r_srv (DevServer.run_sess [DevServer.SCt None 1; DevServer.SCt (Some 1%N) 2; DevServer.SBadS] srv []) = srv /\
+  DevServer.local_stmt 1 (DevServer.SCs 2 false) = false.
+Proof. vm_compute. repeat split. Qed.
+
+(** Round 5 (goal 2): the state after a failed RestoreFunc.  Whatever a first
+    session did and wherever it -- or its RestoreFunc -- failed, if what it left
+    is content the connection owns, the next session on the same driver and
+    connection is declined and issues nothing: leftovers are never built upon
+    nor wiped by a later command.  (Stages mysql/pg, scenario "twice": a fault
+    at every call of the first session, its restore included.) *)
+Theorem C14_after_failed_restore_mysql :
+  forall (b1 : list DevServer.sstmt) (sc2 : DevServer.scenario) (srv : DevServer.server) (fs : list bool),
+  let r1 := DevServer.run_sess b1 srv fs in
+  DevServer.holds_content (DevServer.r_srv r1) = true ->
+  let r2 := DevServer.run_scenario sc2 (DevServer.r_srv r1) (DevServer.r_fs r1) in
+  DevServer.r_trace r2 = [] /\ DevServer.r_srv r2 = DevServer.r_srv r1 /\ DevServer.r_ran r2 = false /\
+  (DevServer.r_out r2 = DevServer.SRefused \/ DevServer.r_out r2 = DevServer.SSnapErr).
+Proof. intros b1 sc2 srv fs r1 H. exact (C14_refuse_untouched_mysql sc2 (DevServer.r_srv r1) (DevServer.r_fs r1) H). Qed.
+Print Assumptions C14_after_failed_restore_mysql.
+
+Theorem C14_after_failed_restore_pg :
+  forall (bound : option N) (b1 : list DevServer.sstmt) (sc2 : DevServer.scenario) (srv : DevServer.server) (fs : list bool),
+  let r1 := DevServerPg.run_sess_pg bound b1 srv fs in
+  DevServerPg.holds_content_pg bound (DevServer.r_srv r1) = true ->
+  let r2 := DevServerPg.run_scenario_pg bound sc2 (DevServer.r_srv r1) (DevServer.r_fs r1) in
+  DevServer.r_trace r2 = [] /\ DevServer.r_srv r2 = DevServer.r_srv r1 /\ DevServer.r_ran r2 = false /\
+  (DevServer.r_out r2 = DevServer.SRefused \/ DevServer.r_out r2 = DevServer.SSnapErr).
+Proof. intros bound b1 sc2 srv fs r1 H. exact (C14_refuse_untouched_pg bound sc2 (DevServer.r_srv r1) (DevServer.r_fs r1) H). Qed.
+Print Assumptions C14_after_failed_restore_pg.
+
+Example C14_after_failed_restore_nonvacuous :
+  (* realm connection: the script creates s2, the restore's DROP DATABASE (call 6) fails: s2 is left,
+     the error is returned; the second session is refused and issues nothing *)
+  let '(r1, r2) := DevServer.run_twice [DevServer.SCs 2 false] [DevServer.SCt (Some 2%N) 7] (DevServer.mkSrv [] None) (DevServer.fault_stream [6] 20) in
+  DevServer.r_restored r1 = false /\ DevServer.holds_content (DevServer.r_srv r1) = true /\
+  DevServer.r_out r2 = DevServer.SRefused /\ DevServer.r_trace r2 = [] /\ DevServer.r_srv r2 = DevServer.r_srv r1.
+Proof. vm_compute. repeat split. Qed.
+
+(** Round 5: which objects count as "not clean".  Both OSS inspectors never list
+    views, so for a server with views (Dev/DevServerView.v) the full statement
+      holds_content_v vs = true -> declined
+    is false: a MySQL schema holding only a view is accepted; an unbound
+    PostgreSQL connection whose "public" holds only a view is accepted and the
+    first session that writes anything makes the RestoreFunc DROP SCHEMA public
+    CASCADE -- the view is destroyed (findings C14-view-only-accepted,
+    C14-view-only-wiped-pg; the SQLite form of this was fixed as 17b84dd).
+    It does hold whenever the connection owns no view. *)
+From Atlas Require Dev.DevServerView.
+
+Theorem C14_refuse_untouched_views_refuted :
+  (exists vs, DevServerView.holds_content_v_my vs = true /\
+     DevServer.r_out (DevServer.run_sess [] (DevServerView.v_srv vs) []) = DevServer.SOk) /\
+  (exists vs body, DevServerView.holds_content_v_pg None vs = true /\
+     let r := DevServerPg.run_sess_pg None body (DevServerView.v_srv vs) [] in
+     DevServer.r_out r = DevServer.SOk /\ DevServer.r_restored r = true /\
+     DevServerView.views_after (DevServer.r_trace r) (DevServerView.v_views vs) = []).
+Proof.
+  split.
+  - exists (DevServerView.mkV (DevServer.mkSrv [DevServer.mkSch 1 []] (Some 1%N)) [(1%N, 9%N)]). vm_compute. split; reflexivity.
+  - exists (DevServerView.mkV (DevServer.mkSrv [DevServer.mkSch 0 []] (Some 0%N)) [(0%N, 9%N)]), [DevServer.SCt None 1].
+    vm_compute. repeat split.
+Qed.
+Print Assumptions C14_refuse_untouched_views_refuted.
+
+Theorem C14_refuse_untouched_views_except :
+  (forall (vs : DevServerView.vserver) (sc : DevServer.scenario) (fs : list bool),
+     existsb (DevServerView.owns_view_my (DevServerView.v_srv vs)) (DevServerView.v_views vs) = false ->
+     DevServerView.holds_content_v_my vs = true ->
+     let r := DevServer.run_scenario sc (DevServerView.v_srv vs) fs in
+     DevServer.r_trace r = [] /\ DevServer.r_srv r = DevServerView.v_srv vs /\ DevServer.r_ran r = false /\
+     (DevServer.r_out r = DevServer.SRefused \/ DevServer.r_out r = DevServer.SSnapErr)) /\
+  (forall (bound : option N) (vs : DevServerView.vserver) (sc : DevServer.scenario) (fs : list bool),
+     existsb (DevServerView.owns_view_pg bound) (DevServerView.v_views vs) = false ->
+     DevServerView.holds_content_v_pg bound vs = true ->
+     let r := DevServerPg.run_scenario_pg bound sc (DevServerView.v_srv vs) fs in
+     DevServer.r_trace r = [] /\ DevServer.r_srv r = DevServerView.v_srv vs /\ DevServer.r_ran r = false /\
+     (DevServer.r_out r = DevServer.SRefused \/ DevServer.r_out r = DevServer.SSnapErr)).
+Proof.
+  split.
+  - intros vs sc fs Hn H. exact (C14_refuse_untouched_mysql sc _ fs (DevServerView.content_without_views_my vs Hn H)).
+  - intros bound vs sc fs Hn H. exact (C14_refuse_untouched_pg bound sc _ fs (DevServerView.content_without_views_pg bound vs Hn H)).
+Qed.
+Print Assumptions C14_refuse_untouched_views_except.
+
+Example C14_views_nonvacuous :
+  (* a view in a foreign schema is not the bound connection's content; a table next to it is *)
+  DevServerView.holds_content_v_my (DevServerView.mkV (DevServer.mkSrv [DevServer.mkSch 1 []; DevServer.mkSch 2 []] (Some 1%N)) [(2%N, 9%N)]) = false /\
+  DevServerView.holds_content_v_my (DevServerView.mkV (DevServer.mkSrv [DevServer.mkSch 1 [3%N]; DevServer.mkSch 2 []] (Some 1%N)) [(2%N, 9%N)]) = true /\
+  DevServerView.views_after [DevServer.ECt 0 1; DevServer.EDs 0; DevServer.ECs 0] [(0%N, 9%N); (1%N, 8%N)] = [(1%N, 8%N)].
+Proof. vm_compute. repeat split. Qed.
